@@ -33,8 +33,7 @@ type c39Model struct {
 	// routine-level privileges of that database (input classes with their own
 	// assertion ids, asserted last; the model then follows the code so that all
 	// other assertions stay meaningful on those paths):
-	lostByRemoveDatabase bool // RemoveDatabase left no database-level privilege -> whole database entry dropped
-	lostByClearDatabase  bool // ClearDatabase dropped the whole database entry
+	lostByClearDatabase bool // ClearDatabase dropped the whole database entry
 }
 
 func (m *c39Model) anyBelowDb(d int) bool {
@@ -118,13 +117,6 @@ func c39Apply(ps *PrivilegeSet, m *c39Model, tag string, dom c39Domain) {
 	case 5:
 		ps.RemoveDatabase(db, priv)
 		m.d[d][p] = false
-		// observed behaviour of RemoveDatabase (privilege_set.go:153): when no
-		// database-level privilege is left the database ENTRY is deleted, and
-		// with it the table and routine levels. Class flag, asserted last.
-		if m.dbLevelEmpty(d) && m.anyBelowDb(d) {
-			m.lostByRemoveDatabase = true
-			m.wipeBelowDb(d)
-		}
 	case 6:
 		ps.RemoveTable(db, tbl, priv)
 		m.t[d][t][p] = false
@@ -228,7 +220,6 @@ func c39History(id string, n int, dom c39Domain) {
 	nd.Reach(id)
 	c39Check(id, ps, m)
 	// one id per input class, shared by the history harnesses
-	nd.Assert("c39.remove-database.keeps-table-and-routine-privileges", !m.lostByRemoveDatabase)
 	nd.Assert("c39.clear-database.keeps-table-and-routine-privileges", !m.lostByClearDatabase)
 }
 
